@@ -102,6 +102,13 @@ def handleMem (st : DState) (ws : List String) : Option (DState × String) :=
     pure (memRes st (memProt st.m.mem s p))
   | ["resize", s, n] => do
     let s ← parseHex? s; let n ← parseHex? n
+    -- a request above 16 MiB is only answered when the model rejects it before allocating; whether the host can satisfy
+    -- a huge allocation is outside the model (the implementation's outcome is judged by the crash oracle)
+    if n > 2 ^ 24 then
+      let idx := areaIndex st.m.mem s
+      if pastEnd s n || collidesOther st.m.mem idx s n || idx.isNone then pure (st, "err")
+      else pure ({ st with poisoned := true }, "unspecified")
+    else
     pure (memRes st (resizeSection st.m.mem s n))
   | ["anyz", n] => do
     let n ← parseHex? n
